@@ -57,7 +57,28 @@ class PathResult:
 
 
 def explore(world, runner, max_paths=4000):
-    """Run `runner(ctx)` on every feasible path.  Returns list of PathResult."""
+    """Run `runner(ctx)` on every feasible path (in a thread with a large stack: lazily composed array
+    closures nest deeply).  Returns list of PathResult."""
+    import sys
+    import threading
+    box = {}
+
+    def target():
+        try:
+            box['r'] = _explore(world, runner, max_paths)
+        except BaseException as e:      # re-raised in the caller
+            box['e'] = e
+    sys.setrecursionlimit(200000)
+    threading.stack_size(1024 * 1024 * 1024)
+    t = threading.Thread(target=target)
+    t.start()
+    t.join()
+    if 'e' in box:
+        raise box['e']
+    return box['r']
+
+
+def _explore(world, runner, max_paths=4000):
     work = [[]]
     results = []
     while work:
@@ -236,6 +257,91 @@ def expand_sums(ctx, d, budget=20000):
         return None
 
 
+_TRIG = ('cos', 'sin', 'exp', 'sinc', 'sqrt')
+
+
+def term_equal(ctx, t1, t2, depth=0):
+    """Decide t1 == t2 under the path condition, structurally first (products and sums are matched
+    factor by factor so that the solver only sees the linear residue), then by the solver."""
+    if t1.eq(t2):
+        return True
+    if depth > 8:
+        return False
+    if z3.is_app(t1) and z3.is_app(t2) and t1.decl().eq(t2.decl()) and t1.num_args() > 0:
+        k = t1.decl().kind()
+        c1, c2 = list(t1.children()), list(t2.children())
+        if k in (z3.Z3_OP_MUL, z3.Z3_OP_ADD):
+            rest2 = list(c2)
+            left1 = []
+            for x in c1:
+                for j, y in enumerate(rest2):
+                    if x.eq(y):
+                        del rest2[j]
+                        break
+                else:
+                    left1.append(x)
+            if not left1 and not rest2:
+                return True
+            if len(left1) == 1 and len(rest2) == 1:
+                return term_equal(ctx, left1[0], rest2[0], depth + 1)
+            if left1 and rest2:
+                mk = (lambda xs: xs[0] if len(xs) == 1 else (z3.Product(*xs) if k == z3.Z3_OP_MUL else z3.Sum(*xs)))
+                return ctx.known(mk(left1) == mk(rest2), 3000)
+            return ctx.known(t1 == t2, 3000)
+        if len(c1) == len(c2) and k in (z3.Z3_OP_UNINTERPRETED, z3.Z3_OP_TO_REAL, z3.Z3_OP_DIV, z3.Z3_OP_UMINUS):
+            if all(term_equal(ctx, x, y, depth + 1) for x, y in zip(c1, c2)):
+                return True
+    return ctx.known(t1 == t2, 3000)
+
+
+def canon_trig(ctx, exprs):
+    """Rewrite the arguments of cos/sin/exp/sqrt/sinc applications that are provably equal under the
+    path condition to one representative (the solver does not find such nonlinear equalities by
+    itself).  Sound: every substitution is backed by a decided equality."""
+    apps = []
+    seen = set()
+
+    def walk(e):
+        if e.get_id() in seen:
+            return
+        seen.add(e.get_id())
+        if z3.is_app(e):
+            for ch in e.children():
+                walk(ch)
+            if e.num_args() == 1 and e.decl().kind() == z3.Z3_OP_UNINTERPRETED and e.decl().name() in _TRIG:
+                apps.append(e)
+    zs = [x for x in exprs if S.is_z3(x)]
+    for e in zs:
+        walk(e)
+    if len(apps) < 2:
+        return exprs
+    reps = []       # representative argument terms
+    subst = []
+    for a in apps:
+        arg = a.arg(0)
+        for r in reps:
+            if r.eq(arg):
+                break
+            if term_equal(ctx, arg, r):
+                subst.append((a, a.decl()(r)))
+                break
+        else:
+            reps.append(arg)
+    if not subst:
+        return exprs
+    return [z3.substitute(x, *subst) if S.is_z3(x) else x for x in exprs]
+
+
+def oblige_scalar_zero(ctx, name, d, kind):
+    if isinstance(d, S.Cx):
+        re, im = canon_trig(ctx, [S.num(d.re), S.num(d.im)])
+        re, im = S._simp(re), S._simp(im)
+        ctx.oblige(name, S.and_(S.eq(re, 0), S.eq(im, 0)), kind)
+    else:
+        x, = canon_trig(ctx, [S.num(d)])
+        ctx.oblige(name, S.eq(S._simp(x), 0), kind)
+
+
 def sum_zero(ctx, name, d, kind='ensures', depth=0):
     """Obligations for d == 0 where d may contain finite sums.
 
@@ -243,10 +349,7 @@ def sum_zero(ctx, name, d, kind='ensures', depth=0):
     fresh index (Sigma-extensionality: equal bounds and pointwise equal bodies give equal sums);
     an upper bound that differs by exactly one is peeled into the rest; empty ranges vanish."""
     if not isinstance(d, S.SumT):
-        if isinstance(d, S.Cx):
-            ctx.oblige(name, S.and_(S.eq(d.re, 0), S.eq(d.im, 0)), kind)
-        else:
-            ctx.oblige(name, S.eq(d, 0), kind)
+        oblige_scalar_zero(ctx, name, d, kind)
         return
     if depth > 6:
         ctx.oblige(name + '.structure', False, kind, info={'structural': True, 'why': 'nesting too deep'})
@@ -309,6 +412,8 @@ def setup_path(ctx, contract):
     ctx.no_model = set(contract.no_model)
     for ax in PI_AXIOMS:
         ctx.assume(ax)
+    for k, v in getattr(contract, 'ctx_flags', {}).items():
+        setattr(ctx, k, v)
     env = contract.params(ctx)
     if contract.pre is not None:
         ctx.assume(contract.pre(ctx, env))
@@ -330,6 +435,7 @@ def setup_path(ctx, contract):
 
 def execute_body(ctx, world, contract, func, env):
     mark_params(env)
+    ctx.events_mark = len(ctx.events)
     try:
         if func.cls is not None and func.name == '__init__':
             value = world.interp.call_function(ctx, func, [env[k] for k in param_names(func)], {})
@@ -395,14 +501,22 @@ def check_outcome(ctx, contract, env0, env, expected, out, frame_writes):
             ob.info.setdefault('witness', wit)
 
 
-def verify_function(world, contract, max_paths=4000):
+def verify_function(world, contract, max_paths=4000, shard=None):
+    """shard=(i, n): only the paths whose decision trace at the end of the body hashes to i mod n are
+    checked by this call (the others are explored but skipped), so that n processes share one function."""
     func = world.repo.function(contract.qualname)
 
     def runner(ctx):
         env, env0, expected = setup_path(ctx, contract)
         ctx.replay_state = (env0, expected)
         out = execute_body(ctx, world, contract, func, env)
-        writes = [(getattr(t, 'origin', 'fresh'), d) for (t, d) in ctx.events if not isinstance(t, str)]
+        if shard is not None:
+            import zlib
+            h = zlib.crc32(''.join('T' if t else 'F' for t in ctx.trace).encode()) % shard[1]
+            if h != shard[0]:
+                del ctx.obligations[:]
+                raise PathEnd('other shard')
+        writes = [(getattr(t, 'origin', 'fresh'), d) for (t, d) in ctx.events[ctx.events_mark:] if not isinstance(t, str)]
         check_outcome(ctx, contract, env0, env, expected, out, writes)
     return explore(world, runner, max_paths)
 
@@ -474,11 +588,16 @@ def discharge(ob, timeout_ms=10000, use_cvc5=False):
         m = s.model()
         # prefer a small counter-model (replayable): bound every integer constant
         consts = [d() for d in m.decls() if d.arity() == 0 and d.range() == z3.IntSort()]
-        for B in (3, 6, 12, 40):
+        rconsts = [d() for d in m.decls() if d.arity() == 0 and d.range() == z3.RealSort() and d.name() != 'pi']
+        q = z3.RealVal('1/4')
+        for B, nice in ((3, True), (6, True), (12, True), (3, False), (6, False), (12, False), (40, False)):
             s.push()
-            s.set('timeout', 3000)
+            s.set('timeout', 2000)
             for cst in consts:
                 s.add(cst >= -B, cst <= B)
+            if nice:        # well-scaled reals replay robustly against float tolerance
+                for cst in rconsts:
+                    s.add(cst <= B, cst >= -B, z3.Or(cst == 0, cst >= q, cst <= -q))
             if s.check() == z3.sat:
                 m = s.model()
                 s.pop()
